@@ -10,7 +10,7 @@ cargo check --offline -q --example demo >/dev/null 2>&1; W=$?
 git apply "$BUG/patch.diff" || { echo "patch does not apply"; exit 2; }
 cargo build --offline >/dev/null 2>&1; B1=$?
 cargo build --offline --features verif >/dev/null 2>&1; B2=$?
-SUITE=$(cargo test --offline --lib 2>&1 | grep -c "41 passed; 0 failed")
+SUITE=$(timeout 900 cargo test --offline --lib 2>&1 | grep -c "41 passed; 0 failed")
 cargo check --offline -q --example demo >/dev/null 2>&1; P=$?
 git checkout -q -- . ; rm -f examples/demo.rs
 echo "check_without_rc=$W builds=$B1,$B2 suite_41_passed=$SUITE check_with_rc=$P"
